@@ -625,3 +625,12 @@ Definition w_fetch (use_ro : bool) : outcome blob :=
 Lemma http_sharded_refuted_witness :
   w_fetch false = Crash AssertionError /\ w_fetch true = Ok (BPlain [65]).
 Proof. vm_compute. split; reflexivity. Qed.
+
+(* C18: a missing shard (HTTP 404 on every probe) surfaces as AssertionError,
+   not as a data-access / I/O error *)
+Definition w_all_404 : server blob := fun _ _ => Resp 404 false (BPlain []).
+Lemma missing_shard_assertion_refuted :
+  fst (hrun blob w_all_404 0
+         (hs_fetch blob BPlain (blob_gunzip []) w_unplain (fun b => Some b) w_locate (fun b => Ok b)
+                   false [104;47;107;47] [48] 16 0)) = Crash AssertionError.
+Proof. vm_compute. reflexivity. Qed.
